@@ -48,6 +48,20 @@ def coerce(t, v):
 TYPES = r"(?:unsigned char|char|int|long|double|bint|str|bytearray|array\.array|Py_ssize_t)"
 
 
+def _strip_comment(expr):
+    """drop a trailing # comment (outside string literals) from the right-hand side of a declaration"""
+    q = None
+    for i, ch in enumerate(expr):
+        if q:
+            if ch == q:
+                q = None
+        elif ch in "'\"":
+            q = ch
+        elif ch == "#":
+            return expr[:i].rstrip()
+    return expr.rstrip()
+
+
 def translate(src):
     out = []
     exported = []
@@ -100,6 +114,7 @@ def translate(src):
         m = re.match(r"cdef\s+(%s)(\[[^\]]*\])?\s+(\w+)\s*=\s*(.*)$" % TYPES, s)
         if m:
             t, arr, var, expr = m.groups()
+            expr = _strip_comment(expr)
             if arr is not None:
                 if arr == "[:]":
                     out.append("%s%s = %s" % (ind, var, expr))  # memoryview: alias of the buffer
